@@ -270,16 +270,37 @@ func c07BranchEffects(c *core.Ctx) {
 
 func c07ClearTransport(c *core.Ctx) {
 	const R = "C07.6"
-	c.Rule(R, "clearTransport clears the pending ping deadline (an upgrade between a ping and its deadline cancels the deadline, as upstream)")
+	c.Rule(R, "the heartbeat belongs to the session, not to the transport: the transport switch of an upgrade (clearTransport ≺ setTransport in MaybeUpgrade's packet handler) leaves an armed ping deadline armed — clearTransport and what it calls cancel neither heartbeat timer — or arms a new one after setTransport (resetPingTimeout on the not-closed edge); OnClose cancels both timers itself (C03.3). With the deadline cancelled at the switch, a peer that falls silent right after an upgrade (revision 4: the server's ping outstanding; revision 3: always) is never closed (fix of this round; the rule used to require the cancellation, 'as upstream')")
 	u := c.Fn(R, sockClearTr)
 	if u == nil {
 		return
 	}
-	ok := false
-	for _, cl := range u.CallsTo(clearTOKey, clearIVKey) {
-		if timerHolder(u.Info(), cl.Arg(0)) == "socket.pingTimeoutTimer" {
-			ok = true
+	cancels := 0
+	for _, w := range u.WithHelpers() {
+		for _, x := range w.AllUnits() {
+			for _, cl := range x.CallsTo(clearTOKey, clearIVKey, timerStopKey) {
+				arg := cl.Arg(0)
+				if cl.Key == timerStopKey {
+					arg = cl.Recv
+				}
+				if h := timerHolder(x.Info(), arg); h == "socket.pingTimeoutTimer" || h == "socket.pingIntervalTimer" {
+					cancels++
+				}
+			}
 		}
 	}
-	c.Check(R, sockClearTr+"/ClearTimeout(pingTimeoutTimer)", u.Pos(), ok, "deadline cancelled with the transport")
+	rearmed := false
+	if mu := c.Fn(R, sockUpgrade); mu != nil {
+		if op := mu.Kid("onPacket"); op != nil {
+			g := op.Graph()
+			for _, set := range op.CallsTo(sockSetTr) {
+				for _, cl := range op.Calls() {
+					if strings.HasSuffix(cl.Key, ".resetPingTimeout") && g.Dominates(set.Loc, cl.Loc) && g.GuardedBy(cl.Loc, gAfter(stateExcludes(sockStateKeys, "socket.readyState", "closed"), set.Pos())) {
+						rearmed = true
+					}
+				}
+			}
+		}
+	}
+	c.Check(R, sockClearTr+"/heartbeat-deadline-survives-the-transport-switch", u.Pos(), cancels == 0 || rearmed, keyf("%d cancellation(s) of a heartbeat timer in clearTransport; deadline re-armed after setTransport: %v", cancels, rearmed))
 }
